@@ -25,7 +25,7 @@ TIERS = {
 }
 RULE = ('per run: x random rank 1..4; y in {1+z^2, 2+z/2, 1.5+z+z^2/2} with z of rank 1..3 scaled to max|z|=1 (so y>=1); order 2..5; '
         'mode sizes 1..10; API in {x/y, scalar/y, elementwise_divide plain / preconditioner c / with starting tensor, x/scalar}; eps '
-        'fixed by the API (1e-12) or 10^-k, k in 4..11; global torch PRNG seeded per run; primary SVD failures on 25%% of runs (at seeded call indices, or at seeded fractions of the measured number of SVD calls so that late calls fail too); '
+        'fixed by the API (1e-12) or 10^-k, k in 4..11; global torch PRNG seeded per run; primary SVD failures on 25% of runs (at seeded call indices, or at seeded fractions of the measured number of SVD calls so that late calls fail too); '
         'distinct by (api, order, divisor form, eps decade, scalar kind, fault kind, singleton flag)')
 ASSUMPTIONS = ['single-threaded BLAS', 'oracle constant C=10: ||q*y-x|| <= 10*eps*||x|| + 2000*u*||x||',
                'divisors are bounded away from zero by construction (y >= 1)']
